@@ -21,9 +21,13 @@ def enc(call):
     return [call[0], str(call[1])]
 
 
-def dec(call):
+def dec(call, int_bibs=False):
     op, arg = call
-    return (op, Decimal(arg)) if op == 'bar' else (op, arg)
+    if op == 'bar':
+        return (op, Decimal(arg))
+    if int_bibs and isinstance(arg, str) and arg.isdigit():
+        return (op, int(arg))           # the competition's bibs are numbers (start lists usually are)
+    return (op, arg)
 
 
 def diff_fields(a, b):
@@ -147,7 +151,7 @@ def tail_call(c, bibs, draw):
         last = Decimal(str(c.heights[-1])) if c.heights else FIRST
         return ('bar', [last + STEP, last, last - STEP, last + 2 * STEP][draw(4)])
     if k == 9 and draw(3) == 0:
-        return ('add', ['Z', bibs[0]][draw(2)])
+        return ('add', [999 if isinstance(bibs[0], int) else 'Z', bibs[0]][draw(2)])
     op = ['failed', 'failed', 'failed', 'cleared', 'cleared', 'retired', 'retired', 'passed'][draw(8)]
     return (op, bibs[draw(len(bibs))])
 
@@ -191,7 +195,7 @@ def alphabet(c, m, max_reg, max_total):
     for b in m.order:
         for op in TRIALS:
             calls.append((op, b))
-    calls.append(('add', 'Z'))
+    calls.append(('add', 999 if isinstance(m.order[0], int) else 'Z'))      # a new bib of the competition's own kind
     calls.append(('add', m.order[0]))
     return calls
 
@@ -201,10 +205,11 @@ def replay(case, on_state=None):
     c, m, hist = start(case['bibs'])
     out = []
     fh = bool(case.get('float_heights'))
+    intb = any(isinstance(b, int) for b in case['bibs'])
     universal = False
     issued = list(hist)
     for raw in case['calls'][len(case['bibs']):]:
-        call = dec(raw)
+        call = dec(raw, intb)
         if universal:
             vs, acc = universal_call(c, call, issued, case['bibs'], fh)
             issued.append(call)
